@@ -503,6 +503,59 @@ def _length_cases(quick):
                 yield (width, rate, n)
 
 
+def _riff_bytes():
+    import struct
+    data = bytes(range(40, 48))
+    return b"RIFF" + struct.pack("<I", 36 + len(data)) + b"WAVE" + b"fmt " + struct.pack("<IHHIIHH", 16, 1, 1, 8000, 16000, 2, 16) + b"data" + struct.pack("<I", len(data)) + data
+
+
+PAYLOADS = {
+    "a-complete-wav-file": _riff_bytes(),
+    "riff-wave-data-words": b"RIFF\x10\x00\x00\x00WAVE" + b"\x01\x02\x03\x04" + b"data" + b"\x05\x06\x07\x08" * 3,
+    "a-textgrid-header": b'File type = "ooTextFile"\nObject class = "TextGrid"\n\nxmin = 0 \n',
+    "form-aiff": b"FORM\x00\x00\x00\x1eAIFFCOMM" + bytes(range(1, 21)),
+}
+
+
+def _check_payload(case):
+    """audio whose BYTES happen to spell something (a RIFF/WAVE header, a whole .wav file, a TextGrid header): frames are opaque - every
+    byte is sample data, whatever it looks like"""
+    width, name, rate = case
+    raw = PAYLOADS[name]
+    raw = raw[: len(raw) - len(raw) % 4]
+    s = W.unpack(raw, width)
+    n = len(s)
+    tag = f"frames = {name} ({len(raw)} bytes) read as {n} samples of width {width} at rate {rate}"
+    viols = []
+    st, w, _ = call(audio.Wav, raw, [1, width, rate, n, "NONE", "not compressed"])
+    if st == "exc":
+        return 1, "X", None, [Viol("wav-raised:" + type(w).__name__, f"{tag}: {w!r}")]
+    base = mkwav([1, 2, 3, 4], width, rate)
+    checks = [("Wav(frames).frames", lambda: bytes(w.frames), raw),
+              ("getSamples", lambda: list(w.getSamples(0, n / rate)), s),
+              ("duration x rate", lambda: round(w.duration * rate), n),
+              ("getSubwav(whole)", lambda: bytes(w.getSubwav(0, n / rate).frames), raw),
+              ("concatenate onto 4 samples", lambda: (base.new(), None)[1] or (lambda b: (b.concatenate(raw), bytes(b.frames))[1])(base.new()), W.pack([1, 2, 3, 4], width) + raw),
+              ("insert at the start of 4 samples", lambda: (lambda b: (b.insert(0, raw), bytes(b.frames))[1])(base.new()), raw + W.pack([1, 2, 3, 4], width)),
+              ("replaceSegment of 4 samples", lambda: (lambda b: (b.replaceSegment(0, 4 / rate, raw), bytes(b.frames))[1])(base.new()), raw)]
+    for what, f, want in checks:
+        st, got, _ = call(f)
+        if st == "exc" or got != want:
+            viols.append(Viol("payload-interpreted", f"{tag}: {what} gives {got if st == 'exc' else (len(got) if isinstance(got, (bytes, list)) else got)!r}, "
+                                                     f"expected {len(want) if isinstance(want, (bytes, list)) else want!r} (bytes / samples / count) - every byte of the frames is audio"))
+            break
+    if not viols:
+        fn = os.path.join(scratch_dir(), "c16-payload.wav")
+        st, r, _ = call(w.save, fn)
+        if st == "exc" or W.read_riff(fn)["samples"] != s:
+            viols.append(Viol("payload-interpreted", f"{tag}: saved file does not hold the {n} samples"))
+        else:
+            st, w2, _ = call(audio.Wav.open, fn)
+            if st == "exc" or bytes(w2.frames) != raw:
+                viols.append(Viol("payload-interpreted", f"{tag}: Wav.open of the saved file does not return the frames"))
+    return len(checks) + 2, "ok", (width, name), viols
+
+
 def _file_cases(quick):
     for width in (1, 2, 4):
         lo, hi = W.value_range(width)
@@ -545,6 +598,10 @@ def parts(tier):
                   rule="one insert / insert-then-delete / deleteSegment / replaceSegment / getSubwav / concatenate on recordings of 1025 .. 65537 "
                        "(thorough 131073) samples, 3 (width, rate) pairs, at the first, second, middle, last sample and the end: same list model",
                   bounds={}, chunk=1),
+        InputPart("frames-that-spell-container-data", lambda: ((w_, nm, r) for w_ in (1, 2, 4) for nm in PAYLOADS for r in (8000, 44100)), _check_payload,
+                  rule="recordings whose bytes spell a complete .wav file, the words RIFF .. WAVE .. data, a TextGrid header, a FORM/AIFF header, read as "
+                       "samples of width 1 / 2 / 4: the frames, getSamples, duration, getSubwav, concatenate, insert, replaceSegment, save and Wav.open "
+                       "treat every byte as audio", bounds={}, chunk=2),
         InputPart("file-round-trip-all-lengths", lambda: _length_cases(quick), _check_file_lengths,
                   rule="EVERY recording length 0..%d at rates {8, 8000, 11025, 16000, 22050, 44100, 48000} (width 2; widths 1 and 4 at three "
                        "rates): Wav.save read by the independent RIFF reader, Wav.open and QueryWav must return every sample and "
